@@ -1,38 +1,747 @@
+// c03: driver of property C03 (index lookups return exactly the rows a full scan would).
+// Per case a generated table shape (TINYINT / SMALLINT / INT and VARCHAR _bin / _ai_ci columns; primary
+// key, secondary, composite, unique and prefix indexes) is created TWICE with identical rows: `ti`
+// with the keys and `tn` with none.  A generated filter (a sqlast.Expr, so the specification can
+// evaluate it) is run as SELECT * FROM ti WHERE f and SELECT * FROM tn WHERE f; both results are
+// recorded as ONE event together with the index lookup (index columns, ranges as cut pairs, whether
+// a Filter node remains above it) read off the analysed plan of the indexed variant and with probe
+// rows.  spec/Trace_Index.tla judges: ResultOK of each result, bag equality between them, and point
+// by point membership of the probe / table rows in the logged ranges (range construction vs range
+// execution).  `-mode exec` executes cases produced elsewhere (TLC-enumerated cases of
+// spec/MC_Index.tla = binding A; witnesses).  Nothing here decides a verdict.
 package main
 
 import (
+	"encoding/json"
+	"flag"
 	"fmt"
+	"math/rand"
 	"os"
+	"sort"
+	"strings"
 
 	"github.com/dolthub/go-mysql-server/sql"
+	"github.com/dolthub/go-mysql-server/sql/plan"
+	"github.com/dolthub/go-mysql-server/sql/transform"
 
 	"gmsverif/lib/eng"
+	. "gmsverif/lib/sqlast"
+	"gmsverif/lib/vio"
 )
 
-func main() {
+// ---------------------------------------------------------------- schema
+
+type colDef struct {
+	Ty      string `json:"ty"`   // i8 | i16 | i32 | s
+	Coll    string `json:"coll"` // none | bin | ci
+	NotNull bool   `json:"notnull"`
+}
+
+type idxDef struct {
+	Cols   []int `json:"cols"`   // 0-based
+	Prefix []int `json:"prefix"` // per column, 0 = whole value
+	Unique bool  `json:"unique"`
+}
+
+type tableDef struct {
+	Cols []colDef  `json:"cols"`
+	PK   []int     `json:"pk"`
+	Idx  []idxDef  `json:"idx"`
+	Rows [][]Value `json:"rows"`
+}
+
+func (t *tableDef) createSQL(name string, keys bool) string {
+	var parts []string
+	for i, c := range t.Cols {
+		s := fmt.Sprintf("c%d ", i+1)
+		switch c.Ty {
+		case "i8":
+			s += "TINYINT"
+		case "i16":
+			s += "SMALLINT"
+		case "i32":
+			s += "INT"
+		default:
+			if c.Coll == "ci" {
+				s += "VARCHAR(16) COLLATE utf8mb4_0900_ai_ci"
+			} else {
+				s += "VARCHAR(16) COLLATE utf8mb4_0900_bin"
+			}
+		}
+		if c.NotNull {
+			s += " NOT NULL"
+		}
+		parts = append(parts, s)
+	}
+	if keys {
+		if len(t.PK) > 0 {
+			var cs []string
+			for _, k := range t.PK {
+				cs = append(cs, fmt.Sprintf("c%d", k+1))
+			}
+			parts = append(parts, "PRIMARY KEY ("+strings.Join(cs, ", ")+")")
+		}
+		for i, ix := range t.Idx {
+			var cs []string
+			for j, k := range ix.Cols {
+				c := fmt.Sprintf("c%d", k+1)
+				if j < len(ix.Prefix) && ix.Prefix[j] > 0 {
+					c += fmt.Sprintf("(%d)", ix.Prefix[j])
+				}
+				cs = append(cs, c)
+			}
+			u := ""
+			if ix.Unique {
+				u = "UNIQUE "
+			}
+			parts = append(parts, fmt.Sprintf("%sKEY k%d (%s)", u, i+1, strings.Join(cs, ", ")))
+		}
+	}
+	return fmt.Sprintf("CREATE TABLE %s (%s)", name, strings.Join(parts, ", "))
+}
+
+func (t *tableDef) insertSQL(name string) []string {
+	var out []string
+	for _, r := range t.Rows {
+		var vs []string
+		for _, v := range r {
+			vs = append(vs, v.SQL())
+		}
+		out = append(out, fmt.Sprintf("INSERT INTO %s VALUES (%s)", name, strings.Join(vs, ", ")))
+	}
+	return out
+}
+
+// ---------------------------------------------------------------- events
+
+type cut struct {
+	C string `json:"c"` // bn | an | aa | b (Below v) | a (Above v)
+	V *Value `json:"v,omitempty"`
+}
+
+type rce struct {
+	Lo cut `json:"lo"`
+	Hi cut `json:"hi"`
+}
+
+type lookupJ struct {
+	Has     bool      `json:"has"`
+	Index   string    `json:"index"`
+	Cols    []int     `json:"cols"`  // 1-based table ordinals of the index expressions
+	Colls   []string  `json:"colls"` // collation tag of each of them
+	Ranges  [][]rce   `json:"ranges"`
+	Exact   bool      `json:"exact"` // no Filter node in the plan: the lookup alone selects the rows
+	Reverse bool      `json:"reverse"`
+	Prefix  bool      `json:"prefix"`
+	Dom     [][]Value `json:"dom"` // probe rows (hypothetical rows of the table's column types)
+	Text    string    `json:"text"`
+}
+
+type event struct {
+	Ev    string         `json:"ev"`
+	DB    map[string]any `json:"db,omitempty"`
+	Def   *tableDef      `json:"def,omitempty"`
+	ID    int            `json:"id,omitempty"`
+	Q     *Query         `json:"q,omitempty"`
+	RI    *eng.Result    `json:"ri,omitempty"`
+	RN    *eng.Result    `json:"rn,omitempty"`
+	LK    *lookupJ       `json:"lk,omitempty"`
+	SQL   string         `json:"sql,omitempty"`  // indexed variant
+	SQLN  string         `json:"sqln,omitempty"` // index-free variant
+	Tags  []string       `json:"tags,omitempty"`
+	Shape string         `json:"shape,omitempty"` // table shape / case origin
+	Star  bool           `json:"star,omitempty"`  // rendered as SELECT *
+}
+
+type runner struct {
+	w      *vio.Writer
+	rep    *vio.Report
+	kinds  map[string]int
+	idxUse map[string]int // kind of key the chosen lookup goes through
+	feats  map[string]int // filter features among the non-trivial cases
+	exact  int
+	ndb    int             // tables set up so far
+	seen   map[string]bool // table number + SQL text of the non-trivial cases (distinct count)
+}
+
+var showSQL = os.Getenv("SQLQ_SHOW") != ""
+
+func setup(t *tableDef) (*eng.DB, *eng.Session) {
 	db := eng.New()
 	s := db.NewSession()
-	for _, q := range []string{
-		"CREATE TABLE ti (c1 TINYINT, c2 SMALLINT, c3 VARCHAR(16) COLLATE utf8mb4_0900_ai_ci, c4 VARCHAR(16) COLLATE utf8mb4_0900_bin, c5 INT NOT NULL, PRIMARY KEY (c5), KEY k1 (c1), KEY k2 (c2, c1), KEY k3 (c3(2)), UNIQUE KEY k4 (c4), KEY k5(c3))",
-		"INSERT INTO ti VALUES (1, 2, 'ab', 'x', 1), (NULL, 3, 'AB', 'y', 2), (127, NULL, NULL, NULL, 3), (-128, 70, 'abc', 'X', 4), (1, 2, 'Abd', 'xy', 5)",
-	} {
-		s.MustExec(q)
+	for _, nm := range []string{"ti", "tn"} {
+		c := t.createSQL(nm, nm == "ti")
+		if showSQL {
+			fmt.Println(c)
+		}
+		s.MustExec(c)
+		for _, ins := range t.insertSQL(nm) {
+			if showSQL && nm == "ti" {
+				fmt.Println(ins)
+			}
+			s.MustExec(ins)
+		}
 	}
-	for _, q := range os.Args[1:] {
-		if q[0] == '!' {
-			s.MustExec(q[1:])
+	return db, s
+}
+
+func (r *runner) dbEvent(t *tableDef) event {
+	r.ndb++
+	rows := t.Rows
+	if rows == nil {
+		rows = [][]Value{}
+	}
+	return event{Ev: "db", DB: map[string]any{"t": map[string]any{"w": len(t.Cols), "rows": rows}}, Def: t}
+}
+
+func render(q *Query, table string, star bool) string {
+	q2 := *q
+	f := *q.From
+	f.Name = table
+	q2.From = &f
+	text := (&Renderer{}).Query(&q2)
+	if star {
+		if i := strings.Index(text, " FROM "); i > 0 {
+			text = "SELECT *" + text[i:]
+		}
+	}
+	return text
+}
+
+func cutOf(c sql.MySQLRangeCut) cut {
+	switch x := c.(type) {
+	case sql.BelowNull:
+		return cut{C: "bn"}
+	case sql.AboveNull:
+		return cut{C: "an"}
+	case sql.AboveAll:
+		return cut{C: "aa"}
+	case sql.Below:
+		v := eng.Norm(x.Key)
+		return cut{C: "b", V: &v}
+	case sql.Above:
+		v := eng.Norm(x.Key)
+		return cut{C: "a", V: &v}
+	}
+	v := Opaque(fmt.Sprintf("%T", c))
+	return cut{C: "?", V: &v}
+}
+
+// lookupOf reads the index lookup of the analysed plan (nil without an index access).
+func lookupOf(db *eng.DB, s *eng.Session, t *tableDef, text string) (*lookupJ, string) {
+	ctx := s.Ctx()
+	node, err := db.Engine.AnalyzeQuery(ctx, text)
+	if err != nil {
+		return nil, "analyze-error"
+	}
+	var ita *plan.IndexedTableAccess
+	hasFilter := false
+	transform.Inspect(node, func(n sql.Node) bool {
+		switch x := n.(type) {
+		case *plan.IndexedTableAccess:
+			ita = x
+		case *plan.Filter:
+			hasFilter = true
+		}
+		return true
+	})
+	if ita == nil {
+		return nil, "scan"
+	}
+	lk := &lookupJ{Has: false, Exact: !hasFilter, Index: ita.Index().ID(), Cols: []int{}, Colls: []string{}, Ranges: [][]rce{}, Dom: [][]Value{}}
+	if !ita.IsStatic() {
+		return lk, "lookup-dynamic"
+	}
+	l, ok, err := ita.GetLookup(ctx, nil)
+	if err != nil || !ok {
+		return lk, "lookup-unreadable"
+	}
+	rs, isM := l.Ranges.(sql.MySQLRangeCollection)
+	if !isM {
+		return lk, "lookup-nonmysql"
+	}
+	lk.Reverse = l.IsReverse
+	lk.Text = rs.DebugString(ctx)
+	for _, e := range l.Index.Expressions() {
+		name := e[strings.LastIndex(e, ".")+1:]
+		var n int
+		if _, err := fmt.Sscanf(strings.ToLower(name), "c%d", &n); err != nil || n < 1 || n > len(t.Cols) {
+			return lk, "lookup-expr"
+		}
+		lk.Cols = append(lk.Cols, n)
+		lk.Colls = append(lk.Colls, t.Cols[n-1].Coll)
+	}
+	for _, p := range l.Index.PrefixLengths() {
+		if p > 0 {
+			lk.Prefix = true
+		}
+	}
+	for _, r := range rs {
+		row := []rce{}
+		for _, ce := range r {
+			row = append(row, rce{Lo: cutOf(ce.LowerBound), Hi: cutOf(ce.UpperBound)})
+		}
+		if len(row) > len(lk.Cols) {
+			return lk, "lookup-arity"
+		}
+		lk.Ranges = append(lk.Ranges, row)
+	}
+	lk.Has = true
+	return lk, "lookup"
+}
+
+// typeRange of an integer column (probe rows stay inside the column's type)
+func typeRange(ty string) (int, int) {
+	switch ty {
+	case "i8":
+		return -128, 127
+	case "i16":
+		return -32768, 32767
+	}
+	return -1000000, 1000000
+}
+
+// probes: hypothetical rows around the literals of the filter and the stored values (test points
+// for the point-by-point membership check; the specification evaluates them).
+func probes(t *tableDef, q *Query, rnd *rand.Rand) [][]Value {
+	w := len(t.Cols)
+	cand := make([][]Value, w)
+	seen := make([]map[string]bool, w)
+	add := func(c int, v Value) {
+		if v.IsNull() && t.Cols[c].NotNull {
+			return
+		}
+		if t.Cols[c].Ty == "s" {
+			if v.T != "s" && !v.IsNull() {
+				return
+			}
+		} else if !v.IsNull() {
+			if v.T != "i" {
+				return
+			}
+			lo, hi := typeRange(t.Cols[c].Ty)
+			if n := toInt(v.V); n < lo || n > hi {
+				return
+			}
+		}
+		k := fmt.Sprintf("%s|%v", v.T, v.V)
+		if seen[c] == nil {
+			seen[c] = map[string]bool{}
+		}
+		if !seen[c][k] {
+			seen[c][k] = true
+			cand[c] = append(cand[c], v)
+		}
+	}
+	for c := range t.Cols {
+		add(c, Null())
+	}
+	for _, r := range t.Rows {
+		for c, v := range r {
+			add(c, v)
+		}
+	}
+	// literals compared with a column: the literal and its neighbours
+	var walk func(e *Expr)
+	lits := func(col *Expr, ls ...*Expr) {
+		if col == nil || col.K != "col" {
+			return
+		}
+		c := col.I - 1
+		for _, l := range ls {
+			if l == nil || l.K != "lit" || l.V == nil {
+				continue
+			}
+			add(c, *l.V)
+			if l.V.T == "i" {
+				n := toInt(l.V.V)
+				add(c, Int(n-1))
+				add(c, Int(n+1))
+			} else if l.V.T == "s" {
+				add(c, Str(l.V.Text()+"a"))
+				add(c, Str(strings.ToUpper(l.V.Text())))
+			}
+		}
+	}
+	walk = func(e *Expr) {
+		if e == nil {
+			return
+		}
+		switch e.K {
+		case "op":
+			if len(e.A) >= 2 {
+				lits(e.A[0], e.A[1:]...)
+				lits(e.A[1], e.A[0])
+			}
+			for _, a := range e.A {
+				walk(a)
+			}
+		case "in":
+			lits(e.E, e.List...)
+		}
+	}
+	walk(q.Where)
+	used := map[int]bool{}
+	var mark func(e *Expr)
+	mark = func(e *Expr) {
+		if e == nil {
+			return
+		}
+		if e.K == "col" {
+			used[e.I-1] = true
+		}
+		for _, a := range e.A {
+			mark(a)
+		}
+		mark(e.E)
+		for _, a := range e.List {
+			mark(a)
+		}
+	}
+	mark(q.Where)
+	// at most 6 candidates per column in use; unused columns keep one value
+	total := 1
+	for c := range cand {
+		if len(cand[c]) == 0 { // NOT NULL column of an empty table
+			if t.Cols[c].Ty == "s" {
+				cand[c] = []Value{Str("a")}
+			} else {
+				cand[c] = []Value{Int(0)}
+			}
+		}
+		if !used[c] {
+			cand[c] = cand[c][len(cand[c])-1:]
 			continue
 		}
-		res := s.Exec(q)
-		fmt.Println(q, "=>", res.Kind, res.Msg, len(res.Rows))
-		for _, r := range res.Raw {
-			fmt.Println("   ", r)
+		if len(cand[c]) > 6 {
+			rnd.Shuffle(len(cand[c])-1, func(i, j int) { cand[c][i+1], cand[c][j+1] = cand[c][j+1], cand[c][i+1] })
+			cand[c] = cand[c][:6]
 		}
-		node, err := db.Engine.AnalyzeQuery(s.Ctx(), q)
-		if err != nil {
-			fmt.Println("analyze err", err)
-			continue
-		}
-		fmt.Println(sql.DebugString(s.Ctx(), node))
+		total *= len(cand[c])
 	}
+	var out [][]Value
+	if total <= 150 {
+		idx := make([]int, w)
+		for {
+			row := make([]Value, w)
+			for c := range row {
+				row[c] = cand[c][idx[c]]
+			}
+			out = append(out, row)
+			c := 0
+			for ; c < w; c++ {
+				idx[c]++
+				if idx[c] < len(cand[c]) {
+					break
+				}
+				idx[c] = 0
+			}
+			if c == w {
+				break
+			}
+		}
+	} else {
+		for k := 0; k < 150; k++ {
+			row := make([]Value, w)
+			for c := range row {
+				row[c] = cand[c][rnd.Intn(len(cand[c]))]
+			}
+			out = append(out, row)
+		}
+	}
+	return out
+}
+
+func toInt(v any) int {
+	switch x := v.(type) {
+	case int:
+		return x
+	case float64:
+		return int(x)
+	}
+	return 0
+}
+
+func keyKind(t *tableDef, lk *lookupJ) string {
+	if lk == nil {
+		return "scan"
+	}
+	if strings.EqualFold(lk.Index, "PRIMARY") {
+		if len(t.PK) > 1 {
+			return "pk-composite"
+		}
+		return "pk"
+	}
+	var n int
+	if _, err := fmt.Sscanf(lk.Index, "k%d", &n); err == nil && n >= 1 && n <= len(t.Idx) {
+		ix := t.Idx[n-1]
+		k := "secondary"
+		if ix.Unique {
+			k = "unique"
+		}
+		for _, p := range ix.Prefix {
+			if p > 0 {
+				k = "prefix"
+			}
+		}
+		if len(ix.Cols) > 1 {
+			k += "-composite"
+		}
+		return k
+	}
+	return "other"
+}
+
+func (r *runner) runCase(db *eng.DB, s *eng.Session, t *tableDef, id int, q *Query, shape string, star bool, rnd *rand.Rand) {
+	ti := render(q, "ti", star)
+	tn := render(q, "tn", star)
+	if showSQL {
+		fmt.Println(ti)
+	}
+	ri := s.Exec(ti)
+	rn := s.Exec(tn)
+	lk, how := lookupOf(db, s, t, ti)
+	tags := Tags(q)
+	for _, c := range usedCols(q.Where) {
+		tags = append(tags, "col:"+t.Cols[c].Ty+colSuffix(t.Cols[c]))
+	}
+	tags = append(tags, outOfRangeTags(t, q.Where)...)
+	tags = append(tags, inCITags(q.Where)...)
+	sort.Strings(tags)
+	tags = uniq(tags)
+	kk := keyKind(t, lk)
+	tags = append(tags, "key:"+kk)
+	if lk != nil {
+		if lk.Has {
+			lk.Dom = probes(t, q, rnd)
+		}
+		if lk.Exact {
+			r.exact++
+		}
+	}
+	ev := event{Ev: "ix", ID: id, Q: q, RI: &ri, RN: &rn, LK: lk, SQL: ti, SQLN: tn, Tags: tags, Shape: shape, Star: star}
+	r.w.Write(ev)
+	r.rep.Cases++
+	r.kinds[ri.Kind+"/"+rn.Kind]++
+	r.idxUse[kk]++
+	r.idxUse["how:"+how]++
+	if key := fmt.Sprintf("%d|%s", r.ndb, ti); lk != nil && !r.seen[key] {
+		r.seen[key] = true
+		r.rep.Nontrivial++
+		for _, tg := range tags {
+			if strings.HasPrefix(tg, "op:") || strings.HasPrefix(tg, "col:") || tg == "inlist" || strings.HasPrefix(tg, "lit:") {
+				r.feats[tg]++
+			}
+		}
+		if len(r.rep.Samples) < 4 && len(ri.Rows) > 0 && len(lk.Ranges) > 1 && r.sampleWanted(kk) {
+			b, _ := json.Marshal(ri.Rows)
+			r.rep.Samples = append(r.rep.Samples, map[string]any{"sql": ti, "key": kk, "ranges": lk.Text, "filter_above": !lk.Exact, "rows": string(b)})
+		}
+	}
+}
+
+func (r *runner) sampleWanted(kk string) bool {
+	for _, s := range r.rep.Samples {
+		if s.(map[string]any)["key"] == kk {
+			return false
+		}
+	}
+	return true
+}
+
+func colSuffix(c colDef) string {
+	if c.Ty == "s" {
+		return "-" + c.Coll
+	}
+	return ""
+}
+
+func uniq(s []string) []string {
+	var out []string
+	for i, x := range s {
+		if i == 0 || x != s[i-1] {
+			out = append(out, x)
+		}
+	}
+	return out
+}
+
+func usedCols(e *Expr) []int {
+	m := map[int]bool{}
+	var walk func(e *Expr)
+	walk = func(e *Expr) {
+		if e == nil {
+			return
+		}
+		if e.K == "col" {
+			m[e.I-1] = true
+		}
+		for _, a := range e.A {
+			walk(a)
+		}
+		walk(e.E)
+		for _, a := range e.List {
+			walk(a)
+		}
+	}
+	walk(e)
+	var out []int
+	for c := range m {
+		out = append(out, c)
+	}
+	sort.Ints(out)
+	return out
+}
+
+// outOfRangeTags: lit:oor when an integer literal compared with a column lies outside the column's type
+func outOfRangeTags(t *tableDef, e *Expr) []string {
+	var out []string
+	check := func(col *Expr, ls ...*Expr) {
+		if col == nil || col.K != "col" || t.Cols[col.I-1].Ty == "s" {
+			return
+		}
+		lo, hi := typeRange(t.Cols[col.I-1].Ty)
+		for _, l := range ls {
+			if l != nil && l.K == "lit" && l.V != nil {
+				if l.V.T == "i" {
+					if n := toInt(l.V.V); n < lo || n > hi {
+						out = append(out, "lit:oor")
+					} else if n == lo || n == hi {
+						out = append(out, "lit:boundary")
+					}
+				} else if l.V.T == "n" {
+					out = append(out, "lit:null")
+				}
+			}
+		}
+	}
+	var walk func(e *Expr)
+	walk = func(e *Expr) {
+		if e == nil {
+			return
+		}
+		switch e.K {
+		case "op":
+			if len(e.A) >= 2 {
+				check(e.A[0], e.A[1:]...)
+				check(e.A[1], e.A[0])
+			}
+			for _, a := range e.A {
+				walk(a)
+			}
+		case "in":
+			check(e.E, e.List...)
+		}
+	}
+	walk(e)
+	return out
+}
+
+// inCITags: in:ci when an IN list is applied to an _ai_ci column
+func inCITags(e *Expr) []string {
+	var out []string
+	var walk func(e *Expr)
+	walk = func(e *Expr) {
+		if e == nil {
+			return
+		}
+		if e.K == "in" && e.E != nil && e.E.K == "col" && e.E.C == "ci" {
+			out = append(out, "in:ci")
+		}
+		for _, a := range e.A {
+			walk(a)
+		}
+	}
+	walk(e)
+	return out
+}
+
+func main() {
+	mode := flag.String("mode", "gen", "gen | exec")
+	seed := flag.Int64("seed", 1, "")
+	ndb := flag.Int("dbs", 10, "number of generated tables")
+	nq := flag.Int("queries", 20, "filters per table")
+	out := flag.String("out", "trace.ndjson", "")
+	in := flag.String("in", "", "cases to execute (mode exec): db events with def, ix events without results")
+	onlyS := flag.String("only", "", "run only the cases with these ids, comma separated (isolation re-run)")
+	flag.Parse()
+	only := parseOnly(*onlyS)
+	w, err := vio.NewWriter(*out)
+	if err != nil {
+		vio.Fatal("%v", err)
+	}
+	r := &runner{w: w, rep: &vio.Report{Extra: map[string]interface{}{}}, kinds: map[string]int{}, seen: map[string]bool{}, idxUse: map[string]int{}, feats: map[string]int{}}
+	switch *mode {
+	case "gen":
+		r.gen(*seed, *ndb, *nq, only)
+	case "exec":
+		r.exec(*in, only, *seed)
+	default:
+		vio.Fatal("unknown mode %s", *mode)
+	}
+	w.Close()
+	r.rep.Extra["result_kinds"] = r.kinds
+	r.rep.Extra["index_use"] = r.idxUse
+	r.rep.Extra["features_nontrivial"] = r.feats
+	r.rep.Extra["lookups_without_filter_above"] = r.exact
+	fmt.Fprintf(os.Stderr, "%s: %d cases, %d through an index %v\n", *mode, r.rep.Cases, r.rep.Nontrivial, r.idxUse)
+	r.rep.Emit()
+}
+
+// ---------------------------------------------------------------- exec mode
+
+func (r *runner) exec(path string, only onlySet, seed int64) {
+	var s *eng.Session
+	var edb *eng.DB
+	var pending *event
+	err := vio.ReadNDJSON(path, func(i int, line []byte) error {
+		var e event
+		if err := json.Unmarshal(line, &e); err != nil {
+			return err
+		}
+		switch e.Ev {
+		case "db":
+			pending = &e
+			s = nil
+		case "ix":
+			if only.skip(e.ID) {
+				return nil
+			}
+			if pending == nil || pending.Def == nil {
+				return fmt.Errorf("ix before db")
+			}
+			if s == nil {
+				edb, s = setup(pending.Def)
+				r.w.Write(r.dbEvent(pending.Def))
+			}
+			e.Q.From.W = len(pending.Def.Cols)
+			shape := e.Shape
+			if shape == "" {
+				shape = "given"
+			}
+			r.runCase(edb, s, pending.Def, e.ID, e.Q, shape, e.Star, rand.New(rand.NewSource(seed*7919+int64(e.ID))))
+		}
+		return nil
+	})
+	if err != nil {
+		vio.Fatal("%v", err)
+	}
+}
+
+type onlySet map[int]bool
+
+func (o onlySet) skip(id int) bool { return o != nil && !o[id] }
+
+func parseOnly(s string) onlySet {
+	if s == "" {
+		return nil
+	}
+	o := onlySet{}
+	for _, p := range strings.Split(s, ",") {
+		var n int
+		if _, err := fmt.Sscan(p, &n); err == nil {
+			o[n] = true
+		}
+	}
+	return o
 }
